@@ -365,6 +365,8 @@ class Units(object):
             result = arg1 * arg2
 
         if result is not None:
+            if result is arg1 or result is arg2:
+                result = result.copy()      # never rename a caller's object
             result.name = name
 
         return result
@@ -381,6 +383,8 @@ class Units(object):
             result = arg1 / arg2
 
         if result is not None:
+            if result is arg1 or result is arg2:
+                result = result.copy()      # never rename a caller's object
             result.name = name
 
         return result
